@@ -3,7 +3,7 @@
 From Coq Require Import List NArith Bool Lia Sorting.Permutation Sorting.Sorted.
 From Verif Require Import Base.Order Robust.Sanitize Robust.SanitizeProofs Robust.Topo Robust.TopoProofs.
 Import ListNotations.
-Open Scope N_scope.
+Local Open Scope N_scope.
 
 (* ------------------------------------------------------------------ *)
 (* errors.Sanitize                                                     *)
